@@ -730,7 +730,32 @@ func (c19) Run(ctx *RunCtx) {
 	var alts []cfgModel // models under other application orders of replies that were in flight together
 	nEvents := c.Range("events", 0, 4)
 	for ev := 0; ev <= nEvents; ev++ {
+		pulledFrom := -1 // index into Sess.Out from which a configuration request counts as a pull of this change
+		pendingAtNotify := 0
 		if ev > 0 {
+			if len(d.Sess.PendingServerRequests()) > 0 && c.Pct("answer-right-before-notify", 50) {
+				// the client answers what is still pending (with its configuration of
+				// that moment) and changes its configuration right afterwards: the
+				// change must be pulled by a request of its own
+				before := model.clone()
+				ps := answerRound(ctx, c, d, model, &shapes, &applied, true, never)
+				if len(ps) >= 2 {
+					alts = append(alts, permuteApply(before, ps)...)
+				} else {
+					for i := range alts {
+						for _, p := range ps {
+							alts[i].apply(p)
+						}
+					}
+				}
+				ctx.Stats.Inc("probe:answer-right-before-next-change")
+			}
+			for _, id := range d.Sess.PendingServerRequests() {
+				if !never[id] {
+					pendingAtNotify++
+				}
+			}
+			pulledFrom = len(d.Sess.Out)
 			d.Notify("workspace/didChangeConfiguration", J{"settings": J{}})
 			ctx.T("didChangeConfiguration #%d", ev)
 			if c.Pct("overlap", 25) && ev < nEvents {
@@ -777,6 +802,20 @@ func (c19) Run(ctx *RunCtx) {
 			ps := append(d.S.Panics, d.Sess.Panics...)
 			fail("totality", fmt.Sprintf("panic in %s: %s", ps[0].Task, ps[0].Value), nil)
 			return
+		}
+		if cfgCap && pulledFrom >= 0 && pendingAtNotify == 0 {
+			// every request issued before this change was already answered (with
+			// the older configuration): the server has to ask again
+			pulls := 0
+			for _, m := range d.Sess.Out[pulledFrom:] {
+				if m.Method == "workspace/configuration" && m.ID != "" {
+					pulls++
+				}
+			}
+			if pulls == 0 {
+				fail("ineffective:change-not-pulled", fmt.Sprintf("configuration event %d: the client announced a configuration change (workspace/didChangeConfiguration) after all earlier workspace/configuration requests had been answered, and the server never asked for the new configuration", ev), nil)
+				return
+			}
 		}
 		o := c19Observe(d, uri, &counter)
 		ctx.T("observed after event %d: codes=%v depthMsg=%d sizeMsg=%d completion=%d counts=%v fuzzy=%d indent=%d aligned=%v col=%d inline=%d/%d  model=%s fmt=%q", ev, o.codes, o.depthMsg, o.sizeMsg, o.complCount, o.complCounts, o.fuzzyCount, o.indent, o.aligned, o.amountCol, o.inlineItems, o.inlineIndent, model, o.fmtLines)
